@@ -1,7 +1,241 @@
 import M3d.Basic
-/-! Line-protocol handler for C19. Core-only. (stub) -/
-namespace M3d.Drv.C19
+import M3d.Model.RenderSampling
+/-!
+Line-protocol handler for C19.  Core-only.
 
-def handleAll (ws : List String) : Option String := none
+Every kind evaluates the executable model of `M3d/Model/RenderSampling.lean` on the arguments of
+the line: at `Float` (arguments are 16-hex-digit IEEE bit patterns; the answer must agree with the
+Go code bit for bit) or, for the kinds ending in `Q`, at `Rat` (exact).
+-/
+namespace M3d.Drv.C19
+open M3d M3d.RS
+
+/-! ### token parser -/
+
+abbrev P := StateT (List String) Option
+
+def tok : P String := fun s => match s with
+  | [] => none
+  | t :: r => some (t, r)
+
+def nanF : Float := (0.0 : Float) / 0.0
+
+def pf (t : String) : Option Float := if t = "nan" then some nanF else floatOfHex t
+def sf (x : Float) : String := if x.isNaN then "nan" else hexOfFloat x
+
+def fl : P Float := do
+  let t ← tok
+  match pf t with
+  | some x => pure x
+  | none => failure
+
+def rat : P Rat := do
+  let t ← tok
+  match parseRat t with
+  | some x => pure x
+  | none => failure
+
+def nat : P Nat := do
+  let t ← tok
+  match t.toNat? with
+  | some x => pure x
+  | none => failure
+
+def bool : P Bool := do
+  let n ← nat
+  pure (n != 0)
+
+def v3 : P (V3 Float) := do
+  let x ← fl; let y ← fl; let z ← fl
+  pure ⟨x, y, z⟩
+
+def many {β} : Nat → P β → P (List β)
+  | 0, _ => pure []
+  | n + 1, p => do
+    let a ← p
+    let r ← many n p
+    pure (a :: r)
+
+def consts : P (Consts Float) := do
+  let eps ← fl; let ome ← fl; let toe ← fl; let pi ← fl; let hgEps ← fl; let hgMax ← fl
+  pure ⟨eps, ome, toe, pi, hgEps, hgMax⟩
+
+def tri : P (Tri Float) := do
+  let a ← v3; let b ← v3; let c ← v3
+  pure ⟨a, b, c⟩
+
+def done : P Unit := fun s => match s with
+  | [] => some ((), [])
+  | _ => none
+
+def ov (v : V3 Float) : String := s!"{sf v.x},{sf v.y},{sf v.z}"
+
+/-! ### kinds -/
+
+def kSchlick : P String := do
+  let ior ← fl; let n ← v3; let s ← v3; done
+  pure (sf (reflectAmount ior n s))
+
+def kRefr : P String := do
+  let ior ← fl; let n ← v3; let s ← v3; done
+  pure (ov (refract ior n s))
+
+def kRSamp (dest : Bool) : P String := do
+  let ior ← fl; let hs ← bool; let n ← v3; let d ← v3; let u ← fl; done
+  pure (ov (if dest then refractSampleDest ior hs n d u else refractSampleSource ior hs n d u))
+
+def kRDens (dest : Bool) : P String := do
+  let k ← consts; let ior ← fl; let hs ← bool; let n ← v3; let s ← v3; let d ← v3; done
+  pure (sf (if dest then refractDestDensity k ior hs n s d else refractSourceDensity k ior hs n s d))
+
+def kRBsdf : P String := do
+  let k ← consts; let ior ← fl; let hs ← bool; let rc ← v3; let sc ← v3
+  let n ← v3; let s ← v3; let d ← v3; done
+  pure (ov (refractMatBSDF k ior hs rc sc n s d))
+
+def kLSamp (dest : Bool) : P String := do
+  let n ← v3; let u ← fl; let c ← fl; let s ← fl; done
+  let r := lambertSample n u c s
+  pure (ov (if dest then r.neg else r))
+
+def kLDens (dest : Bool) : P String := do
+  let n ← v3; let s ← v3; done
+  pure (sf (lambertDensity n (if dest then s.neg else s)))
+
+def kLBsdf : P String := do
+  let df ← v3; let n ← v3; let s ← v3; let d ← v3; done
+  pure (ov (lambertBSDF df n s d))
+
+def kAdSamp : P String := do
+  let dir ← v3; let cl ← fl; let c ← fl; let s ← fl; done
+  pure (ov (aroundDirSample dir cl c s))
+
+def kAdDens : P String := do
+  let alpha ← fl; let dir ← v3; let smp ← v3; let p2 ← fl; done
+  pure (sf (aroundDirDensity alpha dir smp p2))
+
+def kPSamp : P String := do
+  let hd ← bool; let bit ← nat; let n ← v3; let dest ← v3
+  let cl ← fl; let u ← fl; let c ← fl; let s ← fl; done
+  pure (ov (phongSampleSource hd bit n dest cl u c s))
+
+def kPDens : P String := do
+  let hd ← bool; let alpha ← fl; let n ← v3; let sv ← v3; let dest ← v3; let p2 ← fl; done
+  let spec := aroundDirDensity alpha (reflectNeg n dest) sv p2
+  pure (sf (phongSourceDensity hd spec n sv))
+
+def kPBsdf : P String := do
+  let k ← consts; let alpha ← fl; let nf ← bool; let hd ← bool; let sp ← v3; let df ← v3
+  let n ← v3; let sv ← v3; let dest ← v3; let pr ← fl; done
+  pure (ov (phongBSDF k alpha nf hd sp df n sv dest pr))
+
+def kMaxCos : P String := do
+  let k ← consts; let a ← fl; let b ← fl; done
+  pure (sf (maximumCosine k a b))
+
+def kHgSamp : P String := do
+  let k ← consts; let g ← fl; let dest ← v3; let u ← fl; let c ← fl; let s ← fl; done
+  pure (ov (hgSample k g dest u c s))
+
+def kHgNum : P String := do
+  let k ← consts; let g ← fl; done
+  pure (sf (hgNumericalG k g))
+
+def kHgDens : P String := do
+  let k ← consts; let g ← fl; let sv ← v3; let dest ← v3; let p ← fl; done
+  let g' := hgNumericalG k g
+  let dv := hgDivisor g' (sv.dot dest)
+  pure s!"{sf dv} {sf (hgCosDensity g' p)}"
+
+def kJSel : P String := do
+  let n ← nat; let ps ← many n fl; let u ← fl; done
+  let i := joinSelect ps u
+  pure s!"{i} {i}"
+
+def kJSelQ : P String := do
+  let n ← nat; let ps ← many n rat; let u ← rat; done
+  let i := joinSelect ps u
+  pure s!"{i} {i}"
+
+def kJDens : P String := do
+  let n ← nat; let ps ← many n fl; let ds ← many n fl; done
+  let d := joinDensity ps ds
+  pure s!"{sf d} {sf d}"
+
+def kJDensQ : P String := do
+  let n ← nat; let ps ← many n rat; let ds ← many n rat; done
+  let d := joinDensity ps ds
+  pure s!"{showRat d} {showRat d}"
+
+def kFInfo : P String := do
+  let ce ← v3; let r ← fl; let p ← v3; done
+  let fi := focusInfo ce r p
+  pure s!"{sf fi.1} {ov fi.2}"
+
+def kAuSamp : P String := do
+  let mc ← fl; let u ← fl; let dir ← v3; let cl ← fl; let sl ← fl; let c ← fl; let s ← fl; done
+  pure s!"{sf (capCos mc u)} {ov (aroundUniformSample dir cl sl c s)}"
+
+def kAuDens : P String := do
+  let mc ← fl; let dir ← v3; let sv ← v3; done
+  pure (sf (aroundUniformDensity mc dir sv))
+
+def kFDens : P String := do
+  let ce ← v3; let r ← fl; let p ← v3; let n ← v3; let sv ← v3; done
+  if ce.dist p < r then pure (sf (lambertDensity n sv))
+  else
+    let fi := focusInfo ce r p
+    pure (sf (aroundUniformDensity fi.1 fi.2 sv))
+
+def kSphere : P String := do
+  let lo ← fl; let hi ← fl; let k ← consts; let ce ← v3; let r ← fl; let em ← v3
+  let t ← nat; let gs ← many t v3; done
+  match gs.find? (sphereAccept lo hi) with
+  | none => failure
+  | some g =>
+    let pn := sphereSample ce r g
+    pure s!"{ov pn.1} {ov pn.2} {ov em} {sf (sphereTotalEmission k em r)}"
+
+def kCyl : P String := do
+  let k ← consts; let p1 ← v3; let p2 ← v3; let r ← fl; let em ← v3
+  let c ← fl; let s ← fl; let u2 ← fl; let u3 ← fl; done
+  let pn := cylSample k p1 p2 r c s u2 u3
+  pure s!"{ov pn.1} {ov pn.2} {ov em} {sf (cylTotalEmission k em p1 p2 r)}"
+
+def kMesh : P String := do
+  let n ← nat; let ts ← many n tri; let em ← v3; let u1 ← fl; let u2 ← fl; let u3 ← fl; done
+  match meshSample ts u1 u2 u3 with
+  | none => pure "panic"
+  | some (_, p, nm) => pure s!"{ov p} {ov nm} {ov em} {sf (meshTotalEmission ts em)}"
+
+def kJoin : P String := do
+  let n ← nat; let ws ← many n fl; let u ← fl; done
+  pure s!"{selectIdx ws u} {sf (total ws)}"
+
+def kSelGrid : P String := do
+  let n ← nat; let ws ← many n fl; let g ← nat; done
+  let counts := (List.range g).foldl (fun (acc : List Nat) i =>
+    let u := Float.ofNat i / Float.ofNat g
+    let j := selectIdx ws u
+    acc.mapIdx fun idx cnt => if idx = j then cnt + 1 else cnt) (List.replicate n 0)
+  pure (",".intercalate (counts.map toString))
+
+def kinds : List (String × P String) := [
+  ("schlick", kSchlick), ("refr", kRefr), ("rsamp", kRSamp false), ("rsampd", kRSamp true),
+  ("rdens", kRDens false), ("rddens", kRDens true), ("rbsdf", kRBsdf),
+  ("lsamp", kLSamp false), ("lsampd", kLSamp true), ("ldens", kLDens false), ("lddens", kLDens true),
+  ("lbsdf", kLBsdf), ("adsamp", kAdSamp), ("addens", kAdDens), ("psamp", kPSamp), ("pdens", kPDens),
+  ("pbsdf", kPBsdf), ("maxcos", kMaxCos), ("hgsamp", kHgSamp), ("hgnum", kHgNum), ("hgdens", kHgDens),
+  ("jsel", kJSel), ("jselQ", kJSelQ), ("jdens", kJDens), ("jdensQ", kJDensQ),
+  ("finfo", kFInfo), ("ausamp", kAuSamp), ("audens", kAuDens), ("fdens", kFDens),
+  ("sphere", kSphere), ("cyl", kCyl), ("mesh", kMesh), ("join", kJoin), ("selgrid", kSelGrid)]
+
+def handleAll (ws : List String) : Option String :=
+  match ws with
+  | [] => none
+  | kind :: rest =>
+    match kinds.lookup kind with
+    | none => none
+    | some p => (p.run rest).map (·.1)
 
 end M3d.Drv.C19
